@@ -14,7 +14,7 @@ import PtnModel.Proofs.HamMolLookup
 -/
 set_option linter.unusedSectionVars false
 
-namespace Ptn.Ham
+namespace Ptn.Ham.Gauge
 open Ptn.Og List
 
 /-! ## generic look-up facts -/
@@ -280,4 +280,4 @@ theorem tabCol_ok_inv (h : GaugeH) (f : Fam) (key : List Int) (k : Int) (j : Nat
       simp only [Except.ok.injEq] at e
       exact ⟨nd, p.1, rfl, by rw [← e]; exact hl⟩
 
-end Ptn.Ham
+end Ptn.Ham.Gauge
